@@ -108,6 +108,13 @@ pub fn set_panic_verbose(v: bool) {
 pub fn clear_panics() {
     PANICS.lock().unwrap().clear();
 }
+/// Put a panic record (captured by an inner `guarded`) back so that the enclosing `guarded` attributes the
+/// failure to it.
+pub fn repush_panic(p: PanicRec) {
+    if let Ok(mut l) = PANICS.lock() {
+        l.insert(0, p);
+    }
+}
 pub fn take_panics() -> Vec<PanicRec> {
     std::mem::take(&mut *PANICS.lock().unwrap())
 }
@@ -197,7 +204,53 @@ pub struct KfMatch {
     #[serde(default)]
     pub message_contains: Option<String>,
     #[serde(default)]
+    pub also_contains: Option<String>, // second substring the failure message must contain (e.g. the pipeline step)
+    #[serde(default)]
     pub predicate: Option<String>, // semantic: name of the predicate implemented in the check
+}
+
+/// Match a failure against a list of known findings (used by checks that judge several steps per case).
+pub fn match_known_in(known: &[KnownFinding], fail: &Fail) -> Option<KnownFinding> {
+    for k in known {
+        if k.status != "open" {
+            continue;
+        }
+        let Some(m) = &k.r#match else { continue };
+        if let Some(ac) = &m.also_contains {
+            if !fail.message.contains(ac.as_str()) {
+                continue;
+            }
+        }
+        match m.kind.as_str() {
+            "panic" => {
+                let Some(p) = &fail.panic else { continue };
+                if let Some(f) = &m.file {
+                    if !p.file.ends_with(f.as_str()) {
+                        continue;
+                    }
+                }
+                if let Some(lc) = &m.line_contains {
+                    if !source_line(&p.file, p.line).contains(lc.as_str()) {
+                        continue;
+                    }
+                }
+                if let Some(mc) = &m.message_contains {
+                    if !p.message.contains(mc.as_str()) {
+                        continue;
+                    }
+                }
+                return Some(k.clone());
+            }
+            _ => {
+                if let Some(pred) = &m.predicate {
+                    if fail.message.contains(&format!("[{}]", pred)) {
+                        return Some(k.clone());
+                    }
+                }
+            }
+        }
+    }
+    None
 }
 
 pub fn load_known_findings() -> Vec<KnownFinding> {
@@ -331,42 +384,7 @@ impl WorkerCtx {
 
     /// Match a failure against the open known findings of this property.
     pub fn match_known(&self, fail: &Fail) -> Option<KnownFinding> {
-        for k in &self.known {
-            if k.status != "open" {
-                continue;
-            }
-            let Some(m) = &k.r#match else { continue };
-            match m.kind.as_str() {
-                "panic" => {
-                    let Some(p) = &fail.panic else { continue };
-                    if let Some(f) = &m.file {
-                        if !p.file.ends_with(f.as_str()) {
-                            continue;
-                        }
-                    }
-                    if let Some(lc) = &m.line_contains {
-                        if !source_line(&p.file, p.line).contains(lc.as_str()) {
-                            continue;
-                        }
-                    }
-                    if let Some(mc) = &m.message_contains {
-                        if !p.message.contains(mc.as_str()) {
-                            continue;
-                        }
-                    }
-                    return Some(k.clone());
-                }
-                _ => {
-                    // abort / semantic: the check names the predicate explicitly in the message
-                    if let Some(pred) = &m.predicate {
-                        if fail.message.starts_with(&format!("[{}]", pred)) {
-                            return Some(k.clone());
-                        }
-                    }
-                }
-            }
-        }
-        None
+        match_known_in(&self.known, fail)
     }
 
     pub fn account(&mut self, rec: CaseRec, key: u64, sample: impl FnOnce() -> Value) {
